@@ -22,8 +22,10 @@
  Guards: one changed field of one recorded line / one behaviour step must be rejected exactly there (every run); a call that does not return
  within 20 s stops the harness (exit 68, confirmed by a second run); sanitizer reports are violations.
  Known findings (known_findings.json): QswapStale is open (directed case; recognised and undone by its exact predicate); F16realloc,
- QshrinkOverflow, QaddHeadSelf were found here and are repaired in /repo: their inputs are generated and judged normally, their directed cases
- are ordinary judged cases (a reproduction is a VIOLATION).
+ QshrinkOverflow, QaddHeadSelf, QaddHeadStartSign, QextraOverflow were found here and are repaired in /repo: their inputs are generated and
+ judged normally, their directed cases are ordinary judged cases (a reproduction is a VIOLATION).
+ Reported, not generated: EnsureSize(n, true, extraReallocItems >= 2^32 - n, ...) - the header says the argument "is ignored if (setNumItems) is
+ true"; the code returns B_RESOURCE_LIMIT when it would reallocate, and with n below the item count it has truncated the Queue before it fails.
 """
 import concurrent.futures as cf, json, os, random, re, collections
 import vlib, pathcover
@@ -358,7 +360,8 @@ def run(v, tier, seed):
                    "out-of-memory and B_RESOURCE_LIMIT results are not provoked (sizes stay far below MUSCLE_NO_LIMIT; 99 in the specification stands for it)",
                    "documented preconditions are respected by the generators (valid indices for Swap and operator[], sorted contents for InsertItemAtSortedPosition / RemoveSortedDuplicateItems, FastClear only for trivially copyable items); where the header is silent nothing is required: InsertItemsAt beyond the end accepts either reading, the contents of a moved-from Queue (move constructor / move assignment; Plunder is documented) are not judged, AdoptRawDataArray is given default items beyond validItemCount",
                    "an argument that aliases the Queue itself (q.AddTail(q[i]), q.InsertItemAt(i, q[j]), q.AddTailMulti(q), an array inside q's own storage) means 'a copy taken before the call' - the reading the code's own re-entrancy guards implement",
-                   "the open finding QswapStale (known_findings.json) is recognised by its exact predicate (item type without move operations, history, Queue back in its inline buffer): the slots it left behind are counted and reset, everything else is judged normally; F16realloc, QshrinkOverflow, QaddHeadSelf are repaired in /repo: their inputs are generated and judged like any other, their directed cases are ordinary cases",
+                   "the open finding QswapStale (known_findings.json) is recognised by its exact predicate (item type without move operations, history, Queue back in its inline buffer): the slots it left behind are counted and reset, everything else is judged normally; F16realloc, QshrinkOverflow, QaddHeadSelf, QaddHeadStartSign, QextraOverflow are repaired in /repo: their inputs are generated and judged like any other, their directed cases are ordinary cases",
+                   "argument-type boundary values (0x7FFFFFFF, 0x80000000, 0xFFFFFFFE, 0xFFFFFFFF, INT32_MIN/MAX strides) are generated for every index / count / slot parameter except extraReallocItems together with setNumItems = true (documented as ignored, not ignored by the code: reported)",
                    "memory safety is judged by ASan+UBSan (asan build variant); trivially copyable items outside the window are not required to be default items (the library does not clear them by design)"]
     return "model_checking", cov, assumptions
 
